@@ -41,6 +41,10 @@ func runC23(c *Ctx) {
 	if fnode == nil {
 		return
 	}
+	// filterNode and the unexported helpers it was split into (copyNode(node, source) …), their
+	// parameters read as the call's arguments
+	fnParts, fnRestore := boundParts(fnode, 1)
+	defer fnRestore()
 	isFilterCall := func(v ssa.Value) *ssa.Call {
 		cl, ok := strip(v).(*ssa.Call)
 		if ok && staticCallee(&cl.Call) == fnode {
@@ -60,48 +64,54 @@ func runC23(c *Ctx) {
 		return derivesFrom(cl.Call.Args[0], 5, func(v ssa.Value) bool { return strip(v) == ssa.Value(fnode.Params[1]) })
 	}
 	// results
-	for _, r := range returnsOf(fnode) {
-		if len(r.Results) != 1 {
-			continue
+	var judge func(v ssa.Value, r ssa.Instruction, depth int)
+	judge = func(v ssa.Value, r ssa.Instruction, depth int) {
+		if depth <= 0 {
+			c.Check("result-shape", "source@filterNode", r, false, "filterNode's result could not be traced to a freshly built node")
+			return
 		}
-		for _, o := range origins(r.Results[0], 4) {
+		for _, o := range origins(v, 4) {
 			o = strip(o)
 			switch x := o.(type) {
 			case *ssa.Const:
 				c.Check("result-shape", "nil@filterNode", r, x.Value == nil, "unexpected constant result")
 			case *ssa.Alloc:
 				c.Check("result-shape", "fresh-root@filterNode", r, typeIs(x.Type(), "brigodier", "RootCommandNode"), "a fresh non-root node is returned without CanUse")
-			case *ssa.Call:
-				ok := false
-				if methodName(&x.Call) == "Build" {
-					g, n := MustCross(x, canUseTrue)
-					ok = g && n > 0
+			case *ssa.Call, *ssa.Extract:
+				cl := callValue(x)
+				idx := 0
+				if ex, isEx := x.(*ssa.Extract); isEx {
+					idx = ex.Index
 				}
-				c.Check("build-after-canuse", methodName(&x.Call)+"@filterNode", x, ok,
+				if cl != nil && methodName(&cl.Call) == "Build" {
+					g, n := MustCross(cl, canUseTrue)
+					c.Check("build-after-canuse", "Build@filterNode", cl, g && n > 0,
+						"a proxy command node is produced for the player without a dominating src.CanUse(player's context) == true")
+					continue
+				}
+				// a helper of the module that hands the node back: each of its returns is judged
+				if g := moduleHelperWithBody(&cl.Call); cl != nil && g != nil && g != fnode {
+					c.Analysed(g)
+					res := make([]ssa.Value, len(cl.Call.Args))
+					for i, a := range cl.Call.Args {
+						res[i] = strip(a)
+					}
+					withBinding(g, res, func() {
+						for _, hr := range successReturns(g) {
+							if idx < len(hr.Results) {
+								judge(hr.Results[idx], hr, depth-1)
+							}
+						}
+					})
+					continue
+				}
+				c.Check("build-after-canuse", methodName(&cl.Call)+"@filterNode", cl, false,
 					"a proxy command node is produced for the player without a dominating src.CanUse(player's context) == true")
 			case *ssa.UnOp:
 				// dest captured by the Range closure: a local cell; look at what is stored in it
 				if a, ok := x.X.(*ssa.Alloc); ok {
 					for _, sv := range storesTo(a) {
-						for _, oo := range origins(sv, 3) {
-							oo = strip(oo)
-							switch y := oo.(type) {
-							case *ssa.Alloc:
-								c.Check("result-shape", "fresh-root@filterNode", r, typeIs(y.Type(), "brigodier", "RootCommandNode"), "a fresh non-root node is returned without CanUse")
-							case *ssa.Call:
-								okb := false
-								if methodName(&y.Call) == "Build" {
-									g, n := MustCross(y, canUseTrue)
-									okb = g && n > 0
-								}
-								c.Check("build-after-canuse", methodName(&y.Call)+"@filterNode", y, okb,
-									"a proxy command node is produced for the player without a dominating src.CanUse(player's context) == true")
-							case *ssa.Const:
-								c.Check("result-shape", "nil@filterNode", r, y.Value == nil, "unexpected constant result")
-							default:
-								c.Check("result-shape", "source@filterNode", r, false, "filterNode may return a node that is not freshly built: "+oo.String())
-							}
-						}
+						judge(sv, r, depth-1)
 					}
 				} else {
 					c.Check("result-shape", "source@filterNode", r, false, "filterNode may return a node that is not freshly built: "+o.String())
@@ -111,11 +121,23 @@ func runC23(c *Ctx) {
 			}
 		}
 	}
+	for _, r := range returnsOf(fnode) {
+		if len(r.Results) != 1 {
+			continue
+		}
+		judge(r.Results[0], r, 4)
+	}
 	c.Floor("build-after-canuse", 1)
 	// the fresh root is only produced on the is-root edge
 	// AddChild / Redirect arguments
 	nAdd, nRed := 0, 0
-	for _, fn := range Closures(fnode) {
+	var fnAll []*ssa.Function
+	for _, part := range fnParts {
+		if part.Parent() == nil {
+			fnAll = append(fnAll, Closures(part)...)
+		}
+	}
+	for _, fn := range fnAll {
 		c.Analysed(fn)
 		for _, ci := range callsIn(fn, func(nm string, cc *ssa.CallCommon) bool {
 			return (methodName(cc) == "AddChild" || methodName(cc) == "Redirect") && len(cc.Args) >= 1 && cc.IsInvoke()
@@ -153,10 +175,7 @@ func runC23(c *Ctx) {
 		// brigadier's CreateBuilder copies the source node's redirect target (unfiltered); without a
 		// filtered Redirect(...) overriding it the player is sent the target's original subtree
 		var cb ssa.Instruction
-		for _, fn := range c.P.Funcs(Mod + "/" + pkgProxy) {
-			if fn.Name() != "filterNode" {
-				continue
-			}
+		for _, fn := range fnAll {
 			for _, ci := range callsIn(fn, func(nm string, cc *ssa.CallCommon) bool { return methodName(cc) == "CreateBuilder" }) {
 				cb = ci
 			}
@@ -174,8 +193,32 @@ func runC23(c *Ctx) {
 	if h == nil {
 		return
 	}
+	// the handler and the helpers it was split into (injectProxyCommands(root, player), replaceChild …)
+	hParts, hRestore := boundParts(h, 2)
+	defer hRestore()
+	var hTop []*ssa.Function
+	for _, part := range hParts {
+		isFn := false
+		for _, q := range fnParts {
+			if q == part {
+				isFn = true
+			}
+		}
+		if !isFn {
+			hTop = append(hTop, part)
+			c.Analysed(part)
+		}
+	}
+	callsInH := func(m func(string, *ssa.CallCommon) bool) (out []ssa.CallInstruction) {
+		for _, part := range hTop {
+			if part.Parent() == nil || part.Parent() == h {
+				out = append(out, callsIn(part, m)...)
+			}
+		}
+		return
+	}
 	var filt *ssa.Call
-	for _, ci := range callsIn(h, func(nm string, cc *ssa.CallCommon) bool { return staticCallee(cc) == fnode }) {
+	for _, ci := range callsInH(func(nm string, cc *ssa.CallCommon) bool { return staticCallee(cc) == fnode }) {
 		filt = ci.(*ssa.Call)
 	}
 	if filt == nil {
@@ -184,6 +227,7 @@ func runC23(c *Ctx) {
 	}
 	// the player filtered for is the player written to
 	var written ssa.Value
+	var writtenIn *ssa.Function
 	for _, fn := range Closures(h) {
 		for _, ci := range callsIn(fn, func(nm string, cc *ssa.CallCommon) bool { return methodName(cc) == "WritePacket" }) {
 			if ci.Common().IsInvoke() {
@@ -191,27 +235,39 @@ func runC23(c *Ctx) {
 			} else {
 				written = ci.Common().Args[0]
 			}
+			writtenIn = fn
 		}
 	}
-	pw, pf := "", PathOf(filt.Call.Args[1])
+	pw, pf := "", pathThroughFreeVars(filt.Call.Args[1], filt.Parent())
 	if written != nil {
-		pw = PathOf(written)
+		pw = pathThroughFreeVars(written, writtenIn)
 	}
 	c.Check("inject-for-recipient", "filterNode(player)=WritePacket(player)@handleAvailableCommands", filt,
 		written != nil && strings.HasSuffix(pf, ".serverConn.player") && strings.HasSuffix(strings.TrimSuffix(pw, ".MinecraftConn"), ".serverConn.player"),
 		"the tree is filtered for "+pf+" but sent to "+pw)
 	// Range over children of the filtered root; closure adds its node parameter
 	nInj := 0
-	for _, ci := range callsIn(h, func(nm string, cc *ssa.CallCommon) bool { return methodName(cc) == "Range" }) {
+	injected := map[*ssa.Function]bool{}
+	for _, ci := range callsInH(func(nm string, cc *ssa.CallCommon) bool { return methodName(cc) == "Range" }) {
 		args := ci.Common().Args
 		mc, ok := args[len(args)-1].(*ssa.MakeClosure)
 		if !ok {
 			continue
 		}
 		cl := mc.Fn.(*ssa.Function)
-		adds := callsIn(cl, func(nm string, cc *ssa.CallCommon) bool { return methodName(cc) == "AddChild" })
+		clParts := deepFuncs(cl, 1)
+		callsInCl := func(m func(string, *ssa.CallCommon) bool) (out []ssa.CallInstruction) {
+			for _, part := range clParts {
+				out = append(out, callsIn(part, m)...)
+			}
+			return
+		}
+		adds := callsInCl(func(nm string, cc *ssa.CallCommon) bool { return methodName(cc) == "AddChild" })
 		if len(adds) == 0 {
 			continue
+		}
+		for _, part := range clParts {
+			injected[part] = true
 		}
 		nInj++
 		recv := ci.Common().Value
@@ -234,12 +290,12 @@ func runC23(c *Ctx) {
 				"the node added to the backend's root is not the filtered node being iterated")
 			// replacement: on the edge where a same-named backend child exists it is removed before the add
 			var rem ssa.Instruction
-			for _, rc := range callsIn(cl, func(nm string, cc *ssa.CallCommon) bool { return methodName(cc) == "RemoveChild" }) {
+			for _, rc := range callsInCl(func(nm string, cc *ssa.CallCommon) bool { return methodName(cc) == "RemoveChild" }) {
 				rem = rc
 			}
 			okRep := false
 			if rem != nil {
-				for _, e := range IfEdges(cl) {
+				for _, e := range IfEdges(rem.Parent()) {
 					cond, truth := e.Cond()
 					v, isNil, isCmp := nilCmp(cond, truth)
 					if !isCmp || isNil {
@@ -276,7 +332,7 @@ func runC23(c *Ctx) {
 			c.Check("replace-same-name", "RemoveChild-before-AddChild@"+shortName(cl), ad, okRep,
 				"a backend node with the same name as a proxy node must be removed (by its own name) before the proxy node is added")
 			// nothing else removed
-			for _, rc := range callsIn(cl, func(nm string, cc *ssa.CallCommon) bool { return methodName(cc) == "RemoveChild" }) {
+			for _, rc := range callsInCl(func(nm string, cc *ssa.CallCommon) bool { return methodName(cc) == "RemoveChild" }) {
 				g, n := MustCross(rc, func(e Edge, cond ssa.Value, truth bool) bool {
 					v, isNil, isCmp := nilCmp(cond, truth)
 					_, isLk := strip(v).(*ssa.Lookup)
@@ -289,10 +345,17 @@ func runC23(c *Ctx) {
 	if nInj == 0 {
 		c.Undecided("inject-filtered", "handleAvailableCommands", "no injection loop found")
 	}
-	for _, rc := range callsIn(h, func(nm string, cc *ssa.CallCommon) bool {
-		m := methodName(cc)
-		return m == "RemoveChild" || m == "AddChild"
-	}) {
+	var outside []ssa.CallInstruction
+	for _, part := range hTop {
+		if part.Parent() != nil || injected[part] {
+			continue
+		}
+		outside = append(outside, callsIn(part, func(nm string, cc *ssa.CallCommon) bool {
+			m := methodName(cc)
+			return m == "RemoveChild" || m == "AddChild"
+		})...)
+	}
+	for _, rc := range outside {
 		c.Check("only-same-name-removed", methodName(rc.Common())+"@handleAvailableCommands", rc, false, "backend tree modified outside the injection loop")
 	}
 }
